@@ -73,6 +73,12 @@ func (r *Run) SpawnChild(role, tag string, args []string, env []string, stdin []
 	if err != nil {
 		r.Fatal("os.Executable: %v", err)
 	}
+	return r.SpawnChildBin(self, role, tag, args, env, stdin, timeout)
+}
+
+// SpawnChildBin is SpawnChild with an explicit binary (e.g. the race-detector flavour of this check).
+func (r *Run) SpawnChildBin(self, role, tag string, args []string, env []string, stdin []byte, timeout time.Duration) *ChildResult {
+	var err error
 	dir := filepath.Join(r.OutDir, "child")
 	_ = os.MkdirAll(dir, 0o755)
 	outPath := filepath.Join(dir, tag+".stdout")
